@@ -1,11 +1,13 @@
 import RzilVerif.Model.DriverText
 import RzilVerif.Lemmas.LayoutPerm
 import RzilVerif.Lemmas.LayoutDup
+import RzilVerif.Lemmas.LayoutPermGen
 /-
   Driver request that relates the two output layouts of one behaviour (C16):
 
     (layout-rel "<READ_STATEMENTS text>" "<EXEC_CLASSES text>")
-      ↦ (layout-rel (wf <0|1>) (hoist-equal <0|1>) (wf-dup <0|1>) (hoist-equal-dup <0|1>))
+      ↦ (layout-rel (wf <0|1>) (hoist-equal <0|1>) (wf-dup <0|1>) (hoist-equal-dup <0|1>)
+                     (perm-equal-dup <0|1>))
       ↦ (layout-rel (error unparsed-rs)) / (layout-rel (error unparsed-ec))   when a text does not parse
 
   `wf`          : `LayoutWF` (Lemmas/LayoutPerm.lean) of the READ_STATEMENTS items — the hypothesis of
@@ -17,6 +19,10 @@ import RzilVerif.Lemmas.LayoutDup
                       term (`Item.eraseDup`, Lemmas/LayoutDup.lean; equal to `wf` by `layoutWF_eraseDup`);
   `hoist-equal-dup` : `hoistEqualD` = `hoist-equal` of the `DUP`-erased item lists.
   When these two are 1, `layout_rel_sound_dup` (Props/C16.lean) gives `denoteIL` equality of the two texts.
+  `perm-equal-dup`  : `permEqualD` (Lemmas/LayoutPermGen.lean) = on the `DUP`-erased item lists: names of the inlined
+                      declarations of RS pairwise distinct, no forward reference in RS, none in EC, the inlined
+                      declarations of EC are a permutation of those of RS, same returned term.
+  When it is 1, `layout_rel_sound_perm` (Props/C16.lean) gives `denoteIL` equality of the two texts (no other field needed).
 -/
 namespace Rzil
 open Sexp
@@ -31,7 +37,8 @@ def handleLayout : List Sexp → Option Sexp
         .list [.atom "wf", ofBool (LayoutWF rs.items)],
         .list [.atom "hoist-equal", ofBool (hoistEqual rs.items ec.items)],
         .list [.atom "wf-dup", ofBool (LayoutWF (rs.items.map Item.eraseDup))],
-        .list [.atom "hoist-equal-dup", ofBool (hoistEqualD rs.items ec.items)]])
+        .list [.atom "hoist-equal-dup", ofBool (hoistEqualD rs.items ec.items)],
+        .list [.atom "perm-equal-dup", ofBool (permEqualD rs.items ec.items)]])
   | _ => none
 
 end Rzil
